@@ -198,6 +198,7 @@ func runC02(ctx *Ctx) *Report {
 	rep.Exhaustive = true
 	rep.Notes = append(rep.Notes, "every malformation class at every row of every forest ≤ "+itoa(n)+" nodes over 2 names, 4 spellings rotating, 6 output modes rotating")
 	runCasesClass(rep, cases, ctx.Workers)
+	runC02Spec(rep, cases, ctx.Workers)
 	parallel(mcases, ctx.Workers/2+1, func(m *Model, c Case) {
 		diffs := runMassiveVerdict(c)
 		rep.Record(c, caseKey(c), !strings.HasSuffix(c.Note, "well-formed"), diffs)
